@@ -129,10 +129,30 @@ func r11_8(c *Ctx, rule string) {
 						if d > 2 {
 							return false
 						}
+						unwinds := false
 						for _, e := range y.Edges {
+							// the counter of an unwinding loop (`depth := len(stack);
+							// for depth != 0 && !inside(stack[depth-1]) { depth-- };
+							// stack = stack[:depth]`): slot depth-1 is the top of the
+							// stack the loop is cutting back to
+							if eb, isSub := eng.Canon(e).(*ssa.BinOp); isSub && eb.Op == token.SUB && eb.X == ssa.Value(y) {
+								if k, isK := eng.ConstInt(eb.Y); isK && k == 1 {
+									unwinds = true
+									continue
+								}
+							}
 							if !isLen(e, d+1) {
 								return false
 							}
+						}
+						if unwinds {
+							cut := false
+							eng.Instrs(lit, func(i2 ssa.Instruction) {
+								if sl, isS := i2.(*ssa.Slice); isS && sl.High == ssa.Value(y) && eng.SliceLow(sl) == nil && sameStack(sl.X, ia.X) {
+									cut = true
+								}
+							})
+							return cut
 						}
 						return len(y.Edges) > 0
 					}
